@@ -370,7 +370,22 @@ def run_case(case):
                     tgt = b.pop(cat, None)
                 if a != b:
                     diff = sorted(set(a) ^ set(b)) or [c for c in a if a[c] != b[c]]
-                    out.append(viol(tag + ":other-categories", "another category changed (block %d): %s" % (bi, diff[:3]), str(b)[:300], str(a)[:300]))
+                    # one specific difference gets a signature of its own: a value written as the empty string '' comes back as the null marker '.'
+                    def _only_empty_to_dot(ca, cb):
+                        if ca[0] != cb[0] or len(ca[1]) != len(cb[1]):
+                            return False
+                        for ra, rb in zip(ca[1], cb[1]):
+                            if len(ra) != len(rb):
+                                return False
+                            for va, vb in zip(ra, rb):
+                                if va != vb and not (va == ("v", "") and vb[0] == "n" and vb[1] == "."):
+                                    return False
+                        return True
+
+                    if set(a) == set(b) and all(a[c] == b[c] or _only_empty_to_dot(a[c], b[c]) for c in a):
+                        out.append(viol(tag + ":other-categories:empty-string-becomes-dot", "a value written as the empty string '' in another category (block %d: %s) comes back as the null marker '.'" % (bi, diff[:3]), str(b)[:300], str(a)[:300]))
+                    else:
+                        out.append(viol(tag + ":other-categories", "another category changed (block %d): %s" % (bi, diff[:3]), str(b)[:300], str(a)[:300]))
             if tgt is None:
                 out.append(viol(tag + ":target-category-lost", "edited category missing from output", None, cat))
             else:
